@@ -230,6 +230,16 @@ thread_local! {
 }
 
 static WATCHDOG_NOW: AtomicU64 = AtomicU64::new(0);
+/// what each worker is running right now: (start, engine, case JSON); lets the watchdog save the case that hangs
+static CURRENT: Mutex<Vec<Option<(std::time::Instant, &'static str, Vec<u8>)>>> = Mutex::new(Vec::new());
+
+fn set_current(w: usize, v: Option<(std::time::Instant, &'static str, Vec<u8>)>) {
+    let mut c = CURRENT.lock().unwrap_or_else(|e| e.into_inner());
+    if c.len() <= w {
+        c.resize(w + 1, None);
+    }
+    c[w] = v;
+}
 
 /// Run `cases` generated cases of `eng` over `ctx.workers` threads.
 pub fn drive<E: Engine>(eng: &E, ctx: &Ctx, cases: u64) -> RunStats {
@@ -312,7 +322,9 @@ fn drive_worker<E: Engine>(eng: &E, ctx: &Ctx, w: usize, cases: u64, stop: &Atom
         // under test): infrastructure failure, never a verdict
         let r = std::panic::catch_unwind(std::panic::AssertUnwindSafe(|| {
             let case = eng.gen(&tapes);
+            set_current(w, Some((std::time::Instant::now(), eng.name(), serde_json::to_vec(&case).unwrap_or_default())));
             let out = eng.run(&case);
+            set_current(w, None);
             (case, out)
         }));
         let (case, out) = match r {
@@ -535,17 +547,32 @@ pub fn finish(ctx: &Ctx, rep: Report) -> i32 {
 /// Watchdog: if no case completes for `secs` seconds the run is inconclusive
 /// (exit 2), never a violation.
 pub fn start_watchdog(secs: u64) {
+    let per_case = std::env::var("VERIF_CASE_TIMEOUT").ok().and_then(|s| s.parse().ok()).unwrap_or(240u64);
     std::thread::spawn(move || {
         let mut last = WATCHDOG_NOW.load(Ordering::Relaxed);
         let mut idle = 0u64;
         loop {
             std::thread::sleep(std::time::Duration::from_secs(5));
             let now = WATCHDOG_NOW.load(Ordering::Relaxed);
+            // a single case running far beyond any sensible budget: save it and give up (inconclusive)
+            let stuck = {
+                let c = CURRENT.lock().unwrap_or_else(|e| e.into_inner());
+                c.iter().flatten().find(|x| x.0.elapsed().as_secs() >= per_case).map(|x| (x.1, x.2.clone()))
+            };
+            if let Some((eng, bytes)) = stuck {
+                let dir = PathBuf::from(std::env::var("VERIF_ROOT").unwrap_or_else(|_| "/verif".into())).join("replays").join("hang");
+                let _ = std::fs::create_dir_all(&dir);
+                let path = dir.join(format!("{}-{:016x}.json", eng, crate::tape::fnv(&bytes)));
+                let case: serde_json::Value = serde_json::from_slice(&bytes).unwrap_or(serde_json::Value::Null);
+                let _ = std::fs::write(&path, serde_json::to_vec_pretty(&serde_json::json!({"engine": eng, "property": "hang", "signature": "hang", "case": case})).unwrap_or_default());
+                eprintln!("watchdog: one case of engine {} has been running for more than {}s (saved as {}) — inconclusive (exit 2)", eng, per_case, path.display());
+                unsafe { libc_exit(2) }
+            }
             if now == last {
                 idle += 5;
                 if idle >= secs {
                     eprintln!("watchdog: no case finished for {}s — inconclusive (exit 2)", secs);
-                    std::process::exit(2);
+                    unsafe { libc_exit(2) }
                 }
             } else {
                 idle = 0;
@@ -553,6 +580,14 @@ pub fn start_watchdog(secs: u64) {
             }
         }
     });
+}
+
+extern "C" {
+    fn _exit(code: i32) -> !;
+}
+/// immediate exit without running destructors or atexit handlers (worker threads may be spinning)
+unsafe fn libc_exit(code: i32) -> ! {
+    _exit(code)
 }
 
 pub fn watchdog_tick() {
